@@ -189,6 +189,92 @@ theorem lookupPath_eq_spec {t : Node α} (hi : t.Inv W) {q : Pfx} (hq : q.WF W) 
   rw [lookupPathGo_spec hi hq]
   simp [SMap.path]
 
+/-! ### every query, composed over histories: the answer after ANY history of updates and
+deletes is the direct computation over the plain map `specRun ops` after the same history -/
+
+/-- The stored prefixes of the trie after a history ARE the plain map after that history. -/
+theorem stored_iff_spec (ops : List (Op α)) (h : ∀ o ∈ ops, Op.WF W o) (x : Pfx × α) :
+    x ∈ (run W ops).toList ↔ x ∈ specRun ops := by
+  obtain ⟨q, w⟩ := x
+  rw [contents_eq_spec ops h, SMap.find_iff_mem (specRun_keysNodup ops)]
+
+theorem covers_history (ops : List (Op α)) (h : ∀ o ∈ ops, Op.WF W o) {q : Pfx} (hq : q.WF W) :
+    (run W ops).covers W q = SMap.covers W (specRun ops) q := by
+  rw [covers_eq_spec (trie_inv_reachable ops h) hq]
+  exact any_congr_mem _ (stored_iff_spec ops h)
+
+theorem intersects_history (ops : List (Op α)) (h : ∀ o ∈ ops, Op.WF W o) {q : Pfx} (hq : q.WF W) :
+    (run W ops).intersects W q = SMap.within W (specRun ops) q := by
+  rw [intersects_eq_spec (trie_inv_reachable ops h) hq]
+  exact any_congr_mem _ (stored_iff_spec ops h)
+
+theorem overlap_history (ops : List (Op α)) (h : ∀ o ∈ ops, Op.WF W o) {q : Pfx} (hq : q.WF W) :
+    (((run W ops).get W q).isSome || (run W ops).intersects W q || (run W ops).covers W q)
+      = SMap.overlaps W (specRun ops) q := by
+  rw [overlap_eq_spec (trie_inv_reachable ops h) hq]
+  exact any_congr_mem _ (stored_iff_spec ops h)
+
+theorem coveredBy_history (ops : List (Op α)) (h : ∀ o ∈ ops, Op.WF W o) {q : Pfx} (hq : q.WF W) :
+    (run W ops).coveredBy W q =
+      if (specRun ops).isEmpty then none else some (SMap.coveredBy W (specRun ops) q) := by
+  have hi := trie_inv_reachable ops h
+  rw [coveredBy_eq_spec hi hq]
+  have hnil : (run W ops).isNil = (specRun ops).isEmpty := by
+    cases ht : (run W ops).isNil with
+    | true =>
+      have : (run W ops) = .nil := by cases hr : run W ops <;> simp_all [Node.isNil]
+      symm
+      rw [List.isEmpty_iff, List.eq_nil_iff_forall_not_mem]
+      intro x hx
+      have := (stored_iff_spec ops h x).2 hx
+      simp_all [Node.toList]
+    | false =>
+      obtain ⟨p, v, hm⟩ := Inv.exists_mem hi ht
+      have := (stored_iff_spec ops h (p, v)).1 hm
+      symm
+      cases hs : specRun ops with
+      | nil => rw [hs] at this; cases this
+      | cons _ _ => rfl
+  rw [hnil]
+  split
+  · rfl
+  · unfold SMap.coveredBy; rw [all_congr_mem _ (stored_iff_spec ops h)]
+
+/-- LPM of a single address after any history = the longest prefix of the plain map containing it. -/
+theorem lpm_host_history_partial (ops : List (Op α)) (h : ∀ o ∈ ops, Op.WF W o) {q : Pfx} (hq : q.WF W)
+    (hh : q.len = W) :
+    (∀ p v, (run W ops).lpm W q = some (p, v) ↔ IsLpm W (specRun ops) q p v) ∧
+    ((run W ops).lpm W q = none ↔ ∀ p v, (p, v) ∈ specRun ops → ¬ p.covers W q = true) := by
+  have k := lpm_host_eq_spec_partial (trie_inv_reachable ops h) hq hh
+  have tr : ∀ p v, IsLpm W (run W ops).toList q p v ↔ IsLpm W (specRun ops) q p v := by
+    intro p v
+    unfold IsLpm
+    rw [stored_iff_spec ops h (p, v)]
+    constructor
+    · rintro ⟨a, b, c⟩; exact ⟨a, b, fun p' v' hm => c p' v' ((stored_iff_spec ops h (p', v')).2 hm)⟩
+    · rintro ⟨a, b, c⟩; exact ⟨a, b, fun p' v' hm => c p' v' ((stored_iff_spec ops h (p', v')).1 hm)⟩
+  refine ⟨fun p v => ⟨fun e => (tr p v).1 (k.1 p v e), fun e => k.2.2 p v ((tr p v).2 e)⟩, ?_⟩
+  rw [k.2.1]
+  constructor
+  · intro H p v hm; exact H p v ((stored_iff_spec ops h (p, v)).2 hm)
+  · intro H p v hm; exact H p v ((stored_iff_spec ops h (p, v)).1 hm)
+
+theorem closestDescendants_history (ops : List (Op α)) (h : ∀ o ∈ ops, Op.WF W o) {q : Pfx} (hq : q.WF W)
+    {v : α} (hs : (q, v) ∈ specRun ops) (p : Pfx) :
+    p ∈ (run W ops).closestDescendants W q ↔ p ∈ SMap.closest W (specRun ops) q := by
+  rw [closestDescendants_eq_spec (trie_inv_reachable ops h) hq ((stored_iff_spec ops h (q, v)).2 hs)]
+  exact closest_congr_mem (stored_iff_spec ops h) q p
+
+theorem lookupPath_history (ops : List (Op α)) (h : ∀ o ∈ ops, Op.WF W o) {q : Pfx} (hq : q.WF W)
+    (e : Pfx × α) :
+    e ∈ (run W ops).lookupPath W q ↔ ((specRun ops).find q).isSome = true ∧ e ∈ SMap.path W (specRun ops) q := by
+  rw [lookupPath_eq_spec (trie_inv_reachable ops h) hq, get_eq_spec ops h q hq]
+  split
+  · rename_i hsome
+    simp only [hsome, true_and, SMap.path, List.mem_filter, stored_iff_spec ops h e]
+  · rename_i hnone
+    simp [hnone]
+
 /-- **IPv6 arithmetic**: `V6CommonPrefix` as written (two `uint64` halves, shifts by ≥ 64
 giving 0, unmasked high half when the prefix is short) equals the width-128 common prefix
 that the trie theorems are about, for all masked CIDRs. -/
